@@ -39,7 +39,16 @@ def run(check: Check, repo: Repo, tier: str) -> None:
     X.await_guard(check, repo, em)
     X.collect_guard(check, repo)
     X.handler_nulls(check, repo, em)
+    from rules import kind_tables as KT
+    from rules import schema_rules as S
+    kp = S.predicate_classes(repo)
+    tc = "utilities.type_comparators"
+    KT.kind_table(check, repo, repo.func(tc, "is_type_sub_type_of"), "maybe_subtype", "super_type",
+                  KT.spec_is_type_sub_type_of("maybe_subtype", "super_type"), kp)
+    KT.kind_table(check, repo, repo.func(tc, "do_types_overlap"), "type_a", "type_b", KT.spec_do_types_overlap("type_a", "type_b"), kp,
+                  kinds=("Object", "Interface", "Union"), what="(composite kinds)")
     G.sentinel_identity(check, em + [repo.mod(m) for m in ("utilities.coerce_input_value", "utilities.validate_input_value",
                                                            "utilities.replace_variables", "validation.rules.values_of_correct_type",
                                                            "validation.rules.variables_in_allowed_position")])
     check.floor("SENTINEL-IDENTITY", 15, "comparisons against Undefined")
+    check.floor("KIND-TABLE", 2, "kind-dispatch functions folded into decision tables")
